@@ -256,6 +256,14 @@ impl Dictionary {
         R: IntoIterator<Item = u16>,
     {
         let mapper = ConnIdMapper::from_iter(lmap, rmap)?;
+        if mapper.num_left() != self.connector().num_left()
+            || mapper.num_right() != self.connector().num_right()
+        {
+            return Err(VibratoError::invalid_argument(
+                "lmap/rmap",
+                "the number of mapped ids must be the same as that of the connection ids.",
+            ));
+        }
         self.data.system_lexicon.map_connection_ids(&mapper);
         if let Some(user_lexicon) = self.data.user_lexicon.as_mut() {
             user_lexicon.map_connection_ids(&mapper);
